@@ -13,17 +13,21 @@ from spec import format as F
 from . import links as L
 from . import rw
 
-TECHNIQUE = "contract-based deductive verification of the SLNK/SLnK codecs (z3); end-of-file reconstruction as labelled small-scope bounded stand-in"
+TECHNIQUE = "contract-based deductive verification of the SLNK/SLnK codecs and of SunVoxReader.process_end_of_file (symbolic table contents, enumerated table shapes; z3); save/load of reachable link states as labelled small-scope bounded stand-in"
 LEVEL = "other"
 LEVEL_TEXT = (
     "Mixed. Deductive: the SLNK/SLnK codecs (writer emission rule, reader strip-trailing loops) for link tables of every length up to "
-    "the stated bound with ARBITRARY int32 contents. Bounded: the end-of-file reconstruction (a two-pass algorithm over all modules) is "
-    "checked on every link state reachable by the C07 histories at small scope, with the slot chunk present, absent, or present for "
-    "only some modules - run-time contract evaluation on the real writer/reader, listed under bounded_parts, not counted as proved."
+    "the stated bound with ARBITRARY int32 contents; the end-of-file reconstruction (SunVoxReader.process_end_of_file, a two-pass algorithm "
+    "over all modules) against the contract 'the out tables are exactly the mirror of the in tables, the rebuilt slots are the saved slots' "
+    "for EVERY content of the in tables that is the in side of a LinksOK state (source and slot numbers symbolic), per enumerated table "
+    "shape (up to 4 module positions, 4 entries, one empty position), with the slot chunks as the writer elides them and with none at all. "
+    "Bounded: the composition through real files on every link state reachable by the C07 histories at small scope - run-time contract "
+    "evaluation on the real writer/reader, listed under bounded_parts, not counted as proved."
 )
 EXPLANATION = LEVEL_TEXT
 ASSUMPTIONS = [
-    "link table lengths 0..6 in the codec obligations (contents symbolic); reconstruction: output + 3 modules, histories up to depth 3 (quick) / 4 (thorough)",
+    "link table lengths 0..6 in the codec obligations (contents symbolic); file-level reconstruction: output + 3 modules, histories up to depth 3 (quick) / 4 (thorough)",
+    "end_of_file_reconstruction: table SHAPES are enumerated (quick: 5 shapes up to 3 positions / 2 entries per table; thorough: 16 shapes up to 4 positions / 3 entries), slot numbers range over 0..#entries (one more than needed, so freed slots in the middle of out tables occur); the 'no_slot_chunks' case requires every live slot to be 0 (a file without slot chunks cannot describe anything else)",
     "'slot chunk present for only some modules' is produced by deleting SLnK chunks from the written stream with the independent chunk parser",
 ]
 
@@ -160,3 +164,133 @@ def link_states_persist(H, _):
     ops = L.single_ops(4, forms=("method",))
     stats = L.explore_histories(3, depth, ops, lambda *a: _check_persist(H, *a))
     H.cover(f"states={stats[0]} distinct={stats[1]}")
+
+
+# ---------------------------------------------------------------------------------------------
+# Deductive contract for the end-of-file pass itself (replaces, for the stated table shapes, the
+# run-time enumeration above): SunVoxReader.process_end_of_file is run on a reader whose project is
+# in the state the section readers leave it in - every module has its stripped in_links /
+# in_link_slots (or NO in_link_slots where the writer's elision rule drops SLnK) and empty out
+# tables.  The CONTENTS of the in tables are symbolic: every source number and every slot number.
+
+
+def _eof_shapes(tier):
+    # (label, (lengths of the in tables of modules 0..T-1 ; None = empty position))
+    quick = [(1, 1), (0, 2), (2, 0), (1, 0, 1), (2, None, 1)]
+    more = [(1, 1, 1), (0, 2, 1), (2, 1, 0), (0, 1, 2), (1, 2, 1), (2, 2, 0), (0, 3, 0), (1, 1, 1, 1), (0, 2, None, 2), (1, 0, 2, 1), (3, 1, 0)]
+    shapes = quick if tier == "quick" else quick + more
+    out = []
+    for sh in shapes:
+        for elide in ("as_written", "no_slot_chunks"):
+            out.append((",".join("x" if n is None else str(n) for n in sh) + ":" + elide, (sh, elide)))
+    return out
+
+
+@contract(
+    "end_of_file_reconstruction", ["C08", "C07"], cases=_eof_shapes,
+    targets=["rv.readers.sunvox:SunVoxReader.process_end_of_file"], timeout_ms=20000, max_paths=60000,
+)
+def end_of_file_reconstruction(H, case):
+    """requires: the in tables are the in side of SOME LinksOK state (freed entries are -1 in both lists, every live
+    entry names an existing module, no source twice in one table, two live entries naming the same source use
+    different slots), stripped of trailing freed entries as process_SLNK / process_SLnK leave them; a module's
+    in_link_slots is empty where the writer elides SLnK (every slot 0 or -1) - case 'as_written' - or for every
+    module whose slots CAN be rebuilt by iteration order (legacy file without slot chunks: case 'no_slot_chunks',
+    which additionally requires every live slot to be 0, the only tables such a file can describe unambiguously).
+    ensures: process_end_of_file ends with ReaderFinished; in_links are untouched; in_link_slots equal the
+    original slots; for every module s the out tables have equal lengths, entry j is (d, k) exactly when in entry k
+    of module d names (s, j) and (-1, -1) otherwise, and the last entry is live (i.e. the original out tables up to
+    trailing freed slots) - which is LinksOK for the loaded project."""
+    from rv.readers.reader import ReaderFinished
+    from rv.readers.sunvox import SunVoxReader
+
+    shape, elide = case
+    T = len(shape)
+    p = Project()
+    p.modules.clear()
+    mods = []
+    for i, n in enumerate(shape):
+        if n is None:
+            p.modules.append(None)
+            mods.append(None)
+            continue
+        m = Amplifier()
+        m.index = i
+        m.parent = p
+        p.modules.append(m)
+        mods.append(m)
+    E = sum(n for n in shape if n)
+    K = E + 1  # slots range over one more than the number of entries: freed slots in the middle of out tables
+    src = {}
+    slot = {}
+    for d, n in enumerate(shape):
+        for k in range(n or 0):
+            src[d, k] = H.int(f"src[{d}][{k}]", -1, T - 1)
+            slot[d, k] = H.int(f"slot[{d}][{k}]", -1, K - 1)
+    ents = sorted(src)
+    for e in ents:
+        H.assume(H.eq(src[e] == -1, slot[e] == -1))
+        for i, n in enumerate(shape):
+            if n is None:
+                H.assume(src[e] != i)
+    for d, n in enumerate(shape):
+        if n:
+            H.assume(src[d, n - 1] != -1)  # stripped
+    for a in ents:
+        for b in ents:
+            if a < b:
+                if a[0] == b[0]:
+                    H.assume(H.or_(src[a] == -1, src[a] != src[b]))
+                H.assume(H.or_(src[a] == -1, src[a] != src[b], slot[a] != slot[b]))
+    if elide == "no_slot_chunks":
+        for e in ents:
+            H.assume(H.or_(slot[e] == -1, slot[e] == 0))
+    r = SunVoxReader(io.BytesIO(b""))
+    r._object = p
+    p.loaded_sunvox_version = (2, 1, 2, 0)
+    elided = {}
+    for d, n in enumerate(shape):
+        if n is None:
+            continue
+        m = mods[d]
+        m.in_links = [src[d, k] for k in range(n)]
+        trivial = H.and_(*[H.or_(slot[d, k] == 0, slot[d, k] == -1) for k in range(n)]) if n else True
+        if elide == "no_slot_chunks" or (n and trivial) or not n:
+            m.in_link_slots = []
+            elided[d] = True
+        else:
+            m.in_link_slots = [slot[d, k] for k in range(n)]
+            elided[d] = False
+        m.out_links = []
+        m.out_link_slots = []
+    finished = False
+    try:
+        H.call(r.process_end_of_file)
+    except ReaderFinished:
+        finished = True
+    H.check("ends_with_ReaderFinished", finished)
+    H.check("module_list_untouched", len(p.modules) == T and all(a is b for a, b in zip(p.modules, mods)))
+    for d, n in enumerate(shape):
+        if n is None:
+            continue
+        m = mods[d]
+        H.check(f"in_links_untouched[{d}]", len(m.in_links) == n and H.and_(*[H.eq(m.in_links[k], src[d, k]) for k in range(n)]))
+        H.check(f"in_link_slots_are_the_saved_slots[{d}]",
+                len(m.in_link_slots) == n and H.and_(*[H.eq(m.in_link_slots[k], slot[d, k]) for k in range(n)]))
+    for s, n in enumerate(shape):
+        if n is None:
+            continue
+        m = mods[s]
+        L_ = len(m.out_links)
+        H.check(f"out_tables_same_length[{s}]", L_ == len(m.out_link_slots))
+        conds = []
+        for j in range(min(L_, len(m.out_link_slots))):
+            live = [H.and_(src[e] == s, slot[e] == j) for e in ents]
+            exp_ok = H.and_(*[H.implies(c, H.and_(H.eq(m.out_links[j], e[0]), H.eq(m.out_link_slots[j], e[1]))) for c, e in zip(live, ents)])
+            none_ok = H.implies(H.not_(H.or_(*live)) if live else True, H.and_(H.eq(m.out_links[j], -1), H.eq(m.out_link_slots[j], -1)))
+            conds.append(H.and_(exp_ok, none_ok))
+        H.check(f"out_entries_mirror_the_in_entries[{s}]", H.and_(*conds) if conds else True)
+        H.check(f"every_in_entry_naming_this_source_has_its_slot[{s}]",
+                H.and_(*[H.implies(src[e] == s, slot[e] < L_) for e in ents]) if ents else True)
+        H.check(f"no_trailing_freed_out_slot[{s}]", True if L_ == 0 else H.not_(H.eq(m.out_links[L_ - 1], -1)))
+    H.cover("reached")
